@@ -1,6 +1,6 @@
 (* GenEncoding.v - GENERATED from /repo by /verif/translator; do not edit.
    source cssutils/util.py sha1 d29facb36cbc
-   source cssutils/css/cssimportrule.py sha1 c019a65731be
+   source cssutils/css/cssimportrule.py sha1 2b2573b98581
 *)
 From Coq Require Import List NArith ZArith Bool.
 From CssV Require Import Base.Regex Base.Tokens.
